@@ -41,13 +41,13 @@ CONC_NOTE = ("Trusted: eventfd / epoll / std::sync::mpsc / async-task / polling:
              "write/read, queue push/pop, flag swap) so interleavings *inside* one such step and weak-memory effects are out of reach. "
              "TLC is exhaustive for the scripts of spec/mc/*.cfg; replayed schedules are a sample beyond them.")
 CLAIMED.update({
-    "C03": ("TLA+ protocol model PingProto (one action per yield-to-yield step of a thread) model-checked by TLC; its schedules replayed on real threads by the step scheduler and compared event-for-event; all recorded traces validated by TLC against ConcContract; sequential histories through LoopContract",
+    "C03": ("TLA+ protocol model PingProto (one action per yield-to-yield step of a thread) model-checked by TLC; its schedules replayed on real threads by the step scheduler and compared event-for-event; all recorded traces validated by TLC against ConcContract; sequential histories through LoopContract; free-running ping race (drive_hammer) judged by ChanHammerTrace",
             "Model checking of every interleaving of the ping protocol for the configured scripts + schedule replay on real eventfds + trace validation.", "4/C03", CONC_NOTE),
     "C04": ("TLA+ protocol model ChanProto (mpsc queue, ping, drop order; variants as TLC attack schedules) and the channel kind of LoopCore (bounded batch with self re-ping) model-checked by TLC; their schedules / behaviours replayed on the real crate; contract ConcContract (order / exactly-once / single Closed / no stranded message / blocking send completes) validated by TLC on traces of real threads under the step scheduler, including free-running bursts in which a sender really blocks on a full channel while the loop dispatches at full speed; sequential histories (also beyond the real limit of 1024 per dispatch) through LoopContract",
             "Model checking of the channel protocol for the configured scripts + schedule replay + trace validation of scheduled executions of channel() and sync_channel(0,1,2) with batch limits 1..3 and at the real limit.", "4/C04", CONC_NOTE),
-    "C10": ("TLA+ protocol model ExecProto (enqueue / notified swap / eventfd write / flag clear / dequeue steps) model-checked by TLC, its schedules and the TLC attack schedule of the wrong variant replayed on real waker threads under the step scheduler; executor and StreamSource kinds of LoopCore (run queue, notified flag, batch limit with self re-ping, futures dropped with the executor; stream polled until Pending) model-checked and their behaviours replayed event for event; all traces validated by TLC against ConcContract / LoopContract",
+    "C10": ("TLA+ protocol model ExecProto (enqueue / notified swap / eventfd write / flag clear / dequeue steps) model-checked by TLC, its schedules and the TLC attack schedule of the wrong variant replayed on real waker threads under the step scheduler; executor and StreamSource kinds of LoopCore (run queue, notified flag, batch limit with self re-ping, futures dropped with the executor; stream polled until Pending) model-checked and their behaviours replayed event for event; all traces validated by TLC against ConcContract / LoopContract; free-running wake race (drive_hammer) judged by ChanHammerTrace",
             "Model checking of the wake protocol for the configured scripts and of executor/stream histories (schedule, wake, complete, disable, enable, remove, re-insert, scheduling from callbacks and futures, batch limits 1..3 through the hook) + schedule replay + trace validation.", "4/C10", CONC_NOTE),
-    "C11": ("TLA+ protocol model SignalProto (stop flag, sticky notification, run() / block_on() steps; wrong variants swap_after_poll, notify_before_store, wakeup_coalesced) model-checked by TLC; all schedules of the small scripts and the TLC counterexample schedules of the variants replayed on real threads with real epoll waits; contract ConcContract (run() returns after stop+wakeup within one iteration, never without stop; block_on result, several block_on per loop, block_on(TimeoutFuture), an armed timer bounding the wait) validated by TLC on the recorded traces",
+    "C11": ("TLA+ protocol model SignalProto (stop flag, sticky notification, run() / block_on() steps; wrong variants swap_after_poll, notify_before_store, wakeup_coalesced, poll_before_stop) model-checked by TLC; all schedules of the small scripts and the TLC counterexample schedules of the variants replayed on real threads with real epoll waits; contract ConcContract (run() returns after stop+wakeup within one iteration, never without stop; block_on result (Some only when the future completed, no poll after a stop that was requested first), several block_on per loop, block_on(TimeoutFuture), an armed timer bounding the wait) validated by TLC on the recorded traces",
             "Trace validation by TLC of scheduled executions of run()/block_on() with real epoll waits; a wait that does not return within the watchdog is recorded as stuck.", "4/C11", CONC_NOTE),
     "C18": ("TLA+ transcription of transient.rs (Transient.tla) model-checked exhaustively by TLC; an edge cover of the reachable graph (every state x call) is replayed on the real TransientSource inside a real loop and the recorded calls are validated by TLC against the same operators",
             "Exhaustive model checking of the wrapper state machine + one real execution per model transition (MongoDB-style), kernel epoll table as second oracle.", "4/C18",
@@ -61,7 +61,7 @@ CLAIMED["C20"] = ("TLA+ specification of the key codec and TokenFactory (Token.t
     "Exhaustive TLC model checking of the parametric pack/unpack/generation/sub-id arithmetic and the factory machine for all triples of widths <= 4/4/4 (and the limb layout), plus TLC trace validation of ~1.5 million (quick) / 6.5 million (thorough) evaluations of the real code: full boundary cross product, all 2^16 generations and all 2^16 sub-ids for several slot ids, a seeded sample, and factories asked for every n in 1..65540 (thorough).", "4/C20",
     "The real 2^64 domain is not enumerated by TLC: it is bound by (1) limb-form agreement checked exhaustively at small limb widths, (2) validation of the real code on boundary values, full 16-bit sweeps and samples, (3) an Apalache/SMT supplement for all 2^64 keys (not the checker of record). Trusted: the driver's limb decomposition; polling's reserved key = usize::MAX. The 32/16-bit layouts of token.rs are not compiled here. A TLAPS proof was attempted and dropped (nonlinear div/mod obligation).")
 
-CLAIMED["C12"] = ("TLA+ specification of dispatch()'s wait: a declarative oracle (effective wait W = Min of timeout, earliest armed deadline, pending one-off event, external wake-up, with None = infinity; timers that must fire; one-off events and self-removals; a second dispatch must block again) and a code-shaped model of dispatch_events / Poll::poll / the timer pop / process_events; TLC checks exhaustively that the two agree for every enumerated configuration and flags 9 seeded mistakes; every replayable configuration is executed on the real EventLoop with real sources and timers, wall-clock durations are recorded and judged by TLC against the oracle",
+CLAIMED["C12"] = ("TLA+ specification of dispatch()'s wait: a declarative oracle (effective wait W = Min of timeout, earliest armed deadline, pending one-off event, external wake-up, with None = infinity; time spent in before_sleep hooks moves the timeout but not the timer deadlines; timers that must fire; one-off events and self-removals; a second dispatch must block again) and a code-shaped model of dispatch_events / Poll::poll / the timer pop / process_events; TLC checks exhaustively that the two agree for every enumerated configuration and flags 10 seeded mistakes; every replayable configuration is executed on the real EventLoop with real sources and timers, wall-clock durations are recorded and judged by TLC against the oracle",
     "TLC proves code-shaped wait = oracle for 2640 configurations (thorough: 229,376); the configurations that return are each measured on the real crate (quick: a 441-configuration representative subset; thorough: all, at two time scales) and must satisfy elapsed >= W - 1 ms, elapsed <= W + 150 ms (+20 ms when the machine is quiet and it repeats), limiting timer fired, none early, one-off events delivered once, sources removed, second dispatch blocks again.", "4/C12",
     "The verdict on the real code is wall-clock measurement (std::time::Instant); TLA+ supplies the configuration space and the expected values, not the clock. Upper-bound clauses count only if reproduced in every one of 4 (Slack) or 6 (Tight) serial measurements; deviations under 150 ms (20 ms on a quiet machine) are not observable; `>` vs `>=` in the timer pop is only distinguishable in the model. Trusted: Linux timerfd and epoll never fire early, the monotonic clock, polling's EINTR loop as modelled.")
 
